@@ -148,7 +148,9 @@ def gen_cases(tier, seed):
         sp = {'seed': rng.randrange(1 << 30), 'config': cfg, 'dirwatch': True, 'family': 'close-fails',
               'transfers': [{'kind': 'download', 'dst': 'path', 'size': size, 'preexisting': rng.random() < 0.6}],
               'plan': {'faults': [{'at': 't0/fs:close#0', 'phase': 'before', 'kind': 'oserror', 'tag': 'FAULT-close'}], 'delay_p': rng.choice([0.0, 0.3])}}
-        if first is None:
+        if rng.random() < 0.3:
+            pass  # the failing close is the only thing that goes wrong
+        elif first is None:
             sp['plan']['cancel'] = {'at': f't0/fs:write#{rng.randrange(0, max(1, nw - 1))}', 'phase': 'after', 'how': 'future.cancel', 'from': 'event'}
         else:
             sp['plan']['faults'].insert(0, dict(first, tag='FAULT-first'))
